@@ -44,3 +44,28 @@ package actionlint
 
 // rendering of values that appear under %s / %v
 //@ nlfree_string *Pos TokenKind CompareOpNodeKind
+
+// the reporting primitives take messages without line breaks; call sites that echo text of unknown
+// origin (library error texts) are separate obligations
+//@ func (*RuleBase).Error
+//@   requires [C16] nlfree(msg)
+//@ func errorAt
+//@   requires [C16] nlfree(msg)
+//@ func (*parser).error
+//@   requires [C16] nlfree(m)
+//@ func (*parser).errorAt
+//@   requires [C16] nlfree(m)
+//@ func errorAtExpr
+//@   requires [C16] nlfree(msg)
+//@ func errorAtToken
+//@   requires [C16] nlfree(msg)
+//@ func (*ExprParser).error
+//@   requires [C16] nlfree(msg)
+//@ func (*ExprLexer).error
+//@   requires [C16] nlfree(msg)
+//@ func (*globValidator).error
+//@   requires [C16] nlfree(msg)
+//@ func (*globValidator).unexpected
+//@   requires [C16] nlfree(what) && nlfree(why)
+//@ func (*globValidator).invalidRefChar
+//@   requires [C16] nlfree(why)
